@@ -12,7 +12,7 @@ def run(ctx):
     import trancommon
     trancommon.exhaustive(ctx, "C01")
     # (a) op-level interleavings of 2-3 colliding transactions driven from one goroutine
-    dbcommon.run_db(ctx, "tranpairs", 24 if ctx.thorough() else 6, "C01p")
+    dbcommon.run_db(ctx, "tranpairs", 60 if ctx.thorough() else 6, "C01p")
     # (b) free-running concurrent clients against the real checker/merger/persist goroutines
-    dbcommon.run_db(ctx, "tran", 8 if ctx.thorough() else 2, "C01c")
+    dbcommon.run_db(ctx, "tran", 24 if ctx.thorough() else 2, "C01c")
     ctx.assumptions += dbcommon.ASSUME
